@@ -136,10 +136,28 @@ def audit(pid):
     return rc, out, [n for _, n in names], axioms, bad_words
 
 
+RUNDIRS = set()
+
+
+def keep_rundirs():
+    import shutil
+    for d in RUNDIRS:
+        stable = d.rsplit(".", 1)[0]
+        try:
+            if os.path.isdir(stable):
+                shutil.rmtree(stable, ignore_errors=True)
+            os.rename(d, stable)
+        except OSError:
+            shutil.rmtree(d, ignore_errors=True)
+
+
 def run_stream(wfh, fam, seed, n, pid, oracle_only=False, env=None, tag=""):
     """run harness family, then the model driver on the same requests; return list of cases."""
-    rundir = os.path.join(CACHE, "run", pid + tag)
+    # private to this process (two checks of the same property may run at the same time); kept under
+    # the stable name .cache/run/<pid><tag> after the run for inspection
+    rundir = os.path.join(CACHE, "run", f"{pid}{tag}.{os.getpid()}")
     os.makedirs(rundir, exist_ok=True)
+    RUNDIRS.add(rundir)
     qa = os.path.join(rundir, fam + ".qa")
     for p in (qa, os.path.join(rundir, fam + ".stats.json")):
         if os.path.exists(p):
@@ -476,4 +494,8 @@ def main():
 
 
 if __name__ == "__main__":
-    sys.exit(main())
+    try:
+        rc = main()
+    finally:
+        keep_rundirs()
+    sys.exit(rc)
